@@ -175,7 +175,10 @@ def check_constants(fam, val, c, t, row, opts):
 
 
 def dispatch(iso, opts):
-    return supplies.constants_for(iso, opts)
+    """the real dispatcher, handed the caller's dictionary itself (no protective copy), so that any write into it is observable"""
+    with common.quiet():
+        row = None if iso == "WOR" else supplies._S["rows"][iso]
+        return supplies._S["ScenarioRunner"]().set_depending_on_option(opts, country_data=row)
 
 
 def job_dispatch(job):
